@@ -51,7 +51,7 @@ def gen_cases(tier, seed):
                 js = list(range(na)) if (fam == "thermo" or tier != "quick") else [j for j in range(na) if (i + j) % 3 == 0 or abs(i - j) < 6]
                 yield {"kind": "pairs", "family": fam, "i": i, "js": js, "source": src, "seed": r.randrange(1 << 30), "cold": k % 2 == 1}
     for i in range(n):
-        yield {"kind": "history", "seed": r.randrange(1 << 30), "source": ["synthetic", "synthetic", "n77", "model", "co2", "modelpa"][i % 6], "length": r.randint(2, 10), "heavy": i % 8 == 0}
+        yield {"kind": "history", "seed": r.randrange(1 << 30), "source": ["synthetic", "synthetic", "n77", "model", "co2", "modelpa", "origin"][i % 7], "length": r.randint(2, 10), "heavy": i % 8 == 0}
 
 
 def run_case(case, ctx):
@@ -85,6 +85,7 @@ def thermo_alphabet():
     out.append(("area_BET", lambda iso: ch.area_BET(iso)))
     out.append(("psd_mesoporous", lambda iso: ch.psd_mesoporous(iso, psd_model="pygaps-DH")["pore_distribution"][:5]))
     out.append(("to_aif", lambda iso: iso.to_aif()))
+    out.append(("initial_henry_slope(verbose)", lambda iso: ch.initial_henry_slope(iso, max_adjrms=0.01, verbose=True)))
     out.append(("psd_dft(internal)", lambda iso: ch.psd_dft(iso)["pore_distribution"][:5]))
     out.append(("psd_dft(user-kernel-with-unreadable-cell)", lambda iso: ch.psd_dft(iso, kernel=bad_kernel_path())))
     return out
@@ -154,11 +155,25 @@ def _synthetic(seed, variant=0):
     n = a * b * p / ((1 - 0.8 * p) * (1 - 0.8 * p + b * p)) + 1.5 * p / (0.004 + p) + 5 / (1 + numpy.exp(-(p - 0.5) / 0.04))
     pd_ = p[::-3][1:]
     nd = numpy.interp(pd_, p, n) * 1.04
+    if seed % 2 == 0:
+        # the material is a registered one (as after loading it from a database): isotherms share the registered object
+        try:
+            pygaps.Material.find("verif-c04-%d" % (seed % 5))
+        except Exception:
+            pygaps.Material("verif-c04-%d" % (seed % 5), store=True, **({"density": 1.3, "molar_mass": 250.0} if seed % 2 else {"density": 2, "molar_mass": 250}))
     df = pandas.DataFrame({"pressure": numpy.concatenate([p, pd_]), "loading": numpy.concatenate([n, nd])})
     df["enthalpy"] = 8 + 12 * numpy.exp(-df["loading"] / 3.0)
     return pygaps.PointIsotherm(isotherm_data=df, pressure_key="pressure", loading_key="loading", branch=[False] * len(p) + [True] * len(pd_), material=dict(name="verif-c04-%d" % (seed % 5), **({"density": 1.3, "molar_mass": 250.0} if seed % 2 else {"density": 2, "molar_mass": 250})),
                                 adsorbate=ads, pressure_mode="relative", pressure_unit=None, user="verif", run=3.0,
                                 **dict({k: v for k, v in gen.DEFAULT_UNITS.items() if not k.startswith("pressure")}, **gen.temp_kw(T, celsius=seed % 3 == 0)))
+
+
+def _origin(seed):
+    """A measured series that starts with the origin point (p = 0, n = 0), as most instruments report it."""
+    import pygaps
+    p = numpy.concatenate([[0.0], numpy.linspace(0.05, 6.0, 18)])
+    n = 5.0 * (0.6 + (seed % 4) * 0.2) * p / (1 + (0.6 + (seed % 4) * 0.2) * p)
+    return pygaps.PointIsotherm(pressure=list(p), loading=list(n), branch="ads", material="verif-c04-origin", adsorbate="methane", **dict(gen.DEFAULT_UNITS, **gen.temp_kw(150.0, celsius=False)))
 
 
 def _co2(seed):
@@ -234,7 +249,7 @@ def fresh_environment(*isos):
 
 
 def make_object(source, seed):
-    return {"synthetic": lambda: _synthetic(seed, seed), "n77": lambda: _n77(seed), "model": lambda: _model(seed), "co2": lambda: _co2(seed), "modelpa": lambda: _model_pa(seed)}[source]()
+    return {"synthetic": lambda: _synthetic(seed, seed), "n77": lambda: _n77(seed), "model": lambda: _model(seed), "co2": lambda: _co2(seed), "modelpa": lambda: _model_pa(seed), "origin": lambda: _origin(seed)}[source]()
 
 
 # ------------------------------------------------------------------ fingerprint
@@ -369,26 +384,27 @@ def _q_character(r, heavy):
     name = r.choice(light + (hv if heavy else []))
     model = r.choice(["pygaps-DH", "BJH", "DH"]) if name == "psd_mesoporous" else r.choice(["HK", "RY"]) if name == "psd_microporous" else None
     branch = r.choice(["ads", "ads", "des"])
+    vb = {"verbose": True} if (name in light and name != "initial_enthalpy_point" and r.random() < 0.2) else {}
 
     def q(iso):
         if name == "area_BET":
-            return ch.area_BET(iso, branch=branch)
+            return ch.area_BET(iso, branch=branch, **vb)
         if name == "area_langmuir":
-            return ch.area_langmuir(iso, p_limits=(0.02, 0.4))
+            return ch.area_langmuir(iso, p_limits=(0.02, 0.4), **vb)
         if name == "t_plot":
-            return ch.t_plot(iso, thickness_model=r_thick, t_limits=(0.35, 0.65))
+            return ch.t_plot(iso, thickness_model=r_thick, t_limits=(0.35, 0.65), **vb)
         if name == "dr_plot":
-            return ch.dr_plot(iso, p_limits=(None, 0.1))
+            return ch.dr_plot(iso, p_limits=(None, 0.1), **vb)
         if name == "da_plot":
-            return ch.da_plot(iso, exp=None, p_limits=(None, 0.1))
+            return ch.da_plot(iso, exp=None, p_limits=(None, 0.1), **vb)
         if name == "initial_henry_slope":
-            return ch.initial_henry_slope(iso, max_adjrms=0.01)
+            return ch.initial_henry_slope(iso, max_adjrms=0.01, **vb)
         if name == "initial_henry_virial":
-            return ch.initial_henry_virial(iso)
+            return ch.initial_henry_virial(iso, **vb)
         if name == "initial_enthalpy_point":
             return ch.initial_enthalpy_point(iso, "enthalpy", branch=branch)
         if name == "alpha_s":
-            return ch.alpha_s(iso, reference_isotherm=iso, reference_area="BET", t_limits=(0.3, 1.2))
+            return ch.alpha_s(iso, reference_isotherm=iso, reference_area="BET", t_limits=(0.3, 1.2), **vb)
         if name == "psd_mesoporous":
             return ch.psd_mesoporous(iso, psd_model=model, branch=branch)
         if name == "psd_microporous":
@@ -396,7 +412,7 @@ def _q_character(r, heavy):
         return ch.psd_dft(iso)
 
     r_thick = r.choice(["Halsey", "Harkins/Jura", "SiO2 Jaroniec/Kruk/Olivier", "carbon black Kruk/Jaroniec/Gadkaree"])
-    return "%s(%s)" % (name, model or (r_thick if name == "t_plot" else branch)), q
+    return "%s(%s%s)" % (name, model or (r_thick if name == "t_plot" else branch), ",verbose" if vb else ""), q
 
 
 def _q_whittaker(r):
@@ -481,6 +497,8 @@ def make_query(r, source, heavy, seed):
         pool += ["whittaker", "whittaker", "model_iso", "iast", "iast", "henry", "isosteric", "isosteric"]
     if source == "model":
         pool = ["loading_at", "pressure_at", "spreading", "export", "iast", "adsorbate"]
+    if source == "origin":
+        pool = ["accessors", "loading_at", "pressure_at", "spreading", "spreading", "spreading", "export", "model_iso", "henry", "iast"]
     if source == "modelpa":
         pool = ["whittaker", "whittaker", "loading_at", "pressure_at", "spreading", "export", "adsorbate"]
     if source == "n77":
@@ -509,7 +527,8 @@ def make_query(r, source, heavy, seed):
         return _q_model_iso(r)
     if k == "henry":
         from pygaps import characterisation as ch
-        return "initial_henry_slope", (lambda iso: ch.initial_henry_slope(iso, max_adjrms=0.01))
+        vb = {"verbose": True} if r.random() < 0.4 else {}
+        return "initial_henry_slope(%s)" % ("verbose" if vb else ""), (lambda iso: ch.initial_henry_slope(iso, max_adjrms=0.01, **vb))
     return _q_iast(r, seed)
 
 
@@ -517,11 +536,25 @@ def make_query(r, source, heavy, seed):
 
 
 def _outcome(fn, *a):
+    """(value or exception) of a query; floating point *warnings* are silenced, the numpy error mode itself is left alone: it is
+    process-global state that a query may not change either."""
+    import warnings
     try:
-        with numpy.errstate(all="ignore"):
-            return ("ok", fn(*a))
+        with warnings.catch_warnings():
+            warnings.simplefilter("ignore")
+            res = fn(*a)
+        return ("ok", res)
     except Exception as exc:
         return ("exc", exc)
+    finally:
+        try:
+            import matplotlib.pyplot as plt
+            plt.close("all")
+        except Exception:
+            pass
+
+
+_NUMPY_DEFAULT = dict(divide="warn", over="warn", under="ignore", invalid="warn")
 
 
 def same_value(a, b):
@@ -562,7 +595,7 @@ def _run_history(case, ctx):
     except Exception as exc:
         ctx.error("c04: object construction failed", exc)
         return
-    partner = _co2(seed + 1) if source in ("co2", "model") else None
+    partner = _co2(seed + 1) if source in ("co2", "model", "origin") else None
     other = None
     prev = None
     trail = []
@@ -577,8 +610,13 @@ def _run_history(case, ctx):
             args = [obj] + ([partner] if is_iast else [])
         fps = [fingerprint(x) for x in args]
         state_before = explain(obj)
+        err_before = numpy.geterr()
         got = _outcome(q, *args)
         fps_after = [fingerprint(x) for x in args]
+        if numpy.geterr() != err_before:
+            ctx.violation("%s/changes-global-numerical-error-mode" % name.split("(")[0], "a read-only call left numpy's floating point error mode changed for the whole process", query=name, before=err_before,
+                          after=numpy.geterr(), history=trail[-6:], source=source)
+            numpy.seterr(**err_before)
         trail.append(name)
         qname = name.split("(")[0]
         ctx.case([qname, source, min(step, 3), (prev or "").split("(")[0]])
@@ -592,7 +630,7 @@ def _run_history(case, ctx):
                     changed[k] = [state_before[k], after[k]]
             ctx.violation("%s/mutates-argument" % qname, "a read-only call changed an isotherm / adsorbate / material passed to it", query=name, changed=changed, history=trail[-6:], source=source)
             obj = make_object(source, seed)  # continue with intact objects
-            partner = _co2(seed + 1) if source in ("co2", "model") else None
+            partner = _co2(seed + 1) if source in ("co2", "model", "origin") else None
             other = None
             prev = None
             continue
@@ -601,7 +639,10 @@ def _run_history(case, ctx):
             fresh = make_object(source, seed)
             fargs = [fresh] + ([_co2(seed + 1)] if is_iast else [_co2_other(seed)] if name == "isosteric_enthalpy" else [])
             fresh_environment(*fargs)
+            err_now = numpy.geterr()
+            numpy.seterr(**_NUMPY_DEFAULT)
             exp = _outcome(q, *fargs)
+            numpy.seterr(**err_now)
             ctx.count("twin_comparisons", qname)
             if got[0] != exp[0] or (got[0] == "exc" and type(got[1]) is not type(exp[1])):
                 ctx.violation("%s/outcome-depends-on-history" % qname, "the kind of outcome differs from the same call issued first on a fresh object", query=name, after_history=[got[0], repr(got[1])[:160]],
